@@ -133,7 +133,18 @@ PreStateCases ==
   \cup { Case([NoUpd EXCEPT !.set = <<[p |-> P("kn"), v |-> [k |-> "plus", l |-> Path("kn"), r |-> Val(":v")]], [p |-> P("c"), v |-> Path("kn")]>>], Keep, <<>>, V1(Num(1))) }
   \cup { Case([NoUpd EXCEPT !.set = <<[p |-> P("c"), v |-> Path("ks")]>>, !.remove = <<P("ks")>>], Keep, <<>>, <<>>) }
 
-Cases == ListPosCases \cup ListPosTexts \cup SharedOperandCases \cup SharedListCases \cup AliasCases \cup CaseCases \cup SetCases \cup NestedCases \cup RemoveCases \cup AddCases \cup DeleteCases \cup MultiCases \cup PreStateCases
+\* coincidences of TEXT: a value of another type that prints like the stored one really replaces it, and attributes / operands
+\* that are written with the same numeral stay separate numbers (an ADD to one of them leaves the others alone)
+TwinCases ==
+  LET STrue == Str(<<116, 114, 117, 101>>)
+      S1_ == Str(<<49>>)
+  IN { Case(SetU(P("a"), Val(":v")), Keep @@ [a |-> x[1]], <<>>, V1(x[2])) :
+         x \in { <<Num(1), S1_>>, <<S1_, Num(1)>>, <<STrue, Bool(TRUE)>>, <<Bool(TRUE), STrue>>, <<Num(7), Str(<<55>>)>> } }
+     \cup { Case(AddU(P("a"), Val(":v")), Keep @@ [a |-> Num(7)], <<>>, V1(Num(1))),
+            Case(AddU(P("a"), Val(":v")), Keep @@ [a |-> Num(7), b |-> Num(7)], <<>>, V1(Num(7))),
+            Case([NoUpd EXCEPT !.add = <<[p |-> P("a"), v |-> Val(":v")], [p |-> P("b"), v |-> Val(":v")]>>], Keep @@ [a |-> Num(2), b |-> Num(1)], <<>>, V1(Num(2))),
+            Case(SetU(P("a"), [k |-> "plus", l |-> Path("a"), r |-> Val(":v")]), Keep @@ [a |-> Num(7), b |-> Num(7)], <<>>, V1(Num(7))) }
+Cases == TwinCases \cup ListPosCases \cup ListPosTexts \cup SharedOperandCases \cup SharedListCases \cup AliasCases \cup CaseCases \cup SetCases \cup NestedCases \cup RemoveCases \cup AddCases \cup DeleteCases \cup MultiCases \cup PreStateCases
 ASSUME \A c \in Cases : PrintT(ToJson(c))
 ASSUME PrintT(ToJson([kind |-> "count", n |-> Cardinality(Cases)]))
 VARIABLE dummy
